@@ -92,6 +92,40 @@ class Driver:
         return out
 
 
+class Dialogue:
+    """Persistent driver process for the interactive protocol: a request may be answered by `? name args`
+    queries (external special functions), which `oracle(name, [floats])` answers."""
+
+    def __init__(self):
+        if not DRIVER.exists():
+            ensure_built()
+        self.p = subprocess.Popen([str(DRIVER)], stdin=subprocess.PIPE, stdout=subprocess.PIPE, text=True, bufsize=1)
+        self.queries = 0
+
+    def ask(self, line: str, oracle) -> str:
+        self.p.stdin.write(line + "\n")
+        self.p.stdin.flush()
+        while True:
+            out = self.p.stdout.readline()
+            if out == "":
+                raise Infra("driver died during dialogue")
+            out = out.rstrip("\n")
+            if out.startswith("? "):
+                t = out.split()
+                self.queries += 1
+                self.p.stdin.write(f2h(oracle(t[1], [h2f(v) for v in t[2:]])) + "\n")
+                self.p.stdin.flush()
+            else:
+                return out
+
+    def close(self):
+        try:
+            self.p.stdin.close()
+            self.p.wait(timeout=10)
+        except Exception:  # noqa: BLE001
+            self.p.kill()
+
+
 # ---------------------------------------------------------------- lean build / audit
 
 def _lake(args, timeout=3000):
